@@ -40,6 +40,10 @@ CONFIGS = {
         "HBS_LMS_TREE_HEIGHTS": "10, 5, 15",
         "HBS_LMS_WINTERNITZ_PARAMETERS": "2, 8, 4",
     },
+    "l1w8": {"HBS_LMS_MAX_ALLOWED_HSS_LEVELS": "1", "HBS_LMS_TREE_HEIGHTS": "25", "HBS_LMS_WINTERNITZ_PARAMETERS": "8"},
+    "l2w8": {"HBS_LMS_MAX_ALLOWED_HSS_LEVELS": "2", "HBS_LMS_TREE_HEIGHTS": "25, 25", "HBS_LMS_WINTERNITZ_PARAMETERS": "8, 8"},
+    "l3w8": {"HBS_LMS_MAX_ALLOWED_HSS_LEVELS": "3", "HBS_LMS_TREE_HEIGHTS": "25, 25, 25", "HBS_LMS_WINTERNITZ_PARAMETERS": "8, 8, 8"},
+    "l4w8": {"HBS_LMS_MAX_ALLOWED_HSS_LEVELS": "4", "HBS_LMS_TREE_HEIGHTS": "25, 25, 25, 25", "HBS_LMS_WINTERNITZ_PARAMETERS": "8, 8, 8, 8"},
     "l1w8h5": {
         "HBS_LMS_MAX_ALLOWED_HSS_LEVELS": "1",
         "HBS_LMS_TREE_HEIGHTS": "5",
@@ -153,19 +157,23 @@ def _shape(L):
     return f"every list of {L} levels over heights {{2(hook),5,10,15,20,25}} (6^{L} tuples, symbolic), every counter below 2^(sum h)"
 for L in range(1, 9):
     t = "quick" if L <= 4 else "thorough"
-    H("C13", t, "c13", f"c13_increment_l{L}", timeout=1200, model="none (pure arithmetic)", encodes=["CompressedUsedLeafsIndexes::increment"],
+    for _p in ("C13", "C05"):
+      H(_p, t, "c13", f"c13_increment_l{L}", timeout=1200, model="none (pure arithmetic)", encodes=["CompressedUsedLeafsIndexes::increment"],
       forall=_shape(L) + ", sum h <= 63", bounds="exact; unwind 34 covers u64::pow and the level loops", unwind=34)
-    H("C13", t, "c13", f"c13_lifetime_l{L}", timeout=3600, model="none", encodes=["HssPrivateKey::get_lifetime", "CompressedUsedLeafsIndexes::to", "LmsParameter::number_of_lm_ots_keys"],
+    for _p in ("C13", "C05"):
+      H(_p, t, "c13", f"c13_lifetime_l{L}", timeout=3600, model="none", encodes=["HssPrivateKey::get_lifetime", "CompressedUsedLeafsIndexes::to", "LmsParameter::number_of_lm_ots_keys"],
       forall=_shape(L) + ", sum h <= 63; key state as HssPrivateKey::from leaves it (upper levels used q_i+1, bottom q_L)", bounds="exact", unwind=34)
-    H("C13", t, "c13", f"c13_digits_l{L}", timeout=3600, model="none", encodes=["CompressedUsedLeafsIndexes::to"],
+    for _p in ("C13", "C03"):
+      H(_p, t, "c13", f"c13_digits_l{L}", timeout=3600, model="none", encodes=["CompressedUsedLeafsIndexes::to"],
       forall=_shape(L) + ", sum h <= 63", bounds="exact", unwind=34)
-    H("C13", "thorough" if L > 3 else "quick", "c13", f"c13_injective_l{L}", timeout=3600, model="none", encodes=["CompressedUsedLeafsIndexes::to"],
+    for _p in ("C13", "C03"):
+      H(_p, "thorough" if L > 3 else "quick", "c13", f"c13_injective_l{L}", timeout=3600, model="none", encodes=["CompressedUsedLeafsIndexes::to"],
       forall=_shape(L) + " twice (two counters), sum h <= 63, every prefix length", bounds="exact", unwind=34)
     if L >= 3:
         H("C13", t, "c13", f"c13_tall_l{L}", timeout=3600, model="none",
           encodes=["CompressedUsedLeafsIndexes::to", "CompressedUsedLeafsIndexes::increment", "HssPrivateKey::get_lifetime"],
           forall=f"every list of {L} levels with sum h >= 64, every 64-bit counter", bounds="exact", unwind=34)
-    H("C05", t, "c13", f"c05_wipe_l{L}", timeout=1800, model="Havoc16 (no digest computed)",
+    H("C05", "quick" if L <= 2 else "thorough", "c13", f"c05_wipe_l{L}", timeout=3600, model="Havoc16 (no digest computed)",
       encodes=["ReferenceImplPrivateKey::increment", "ReferenceImplPrivateKey::wipe", "ReferenceImplPrivateKey::to_binary_representation",
                "ReferenceImplPrivateKey::generate", "CompressedParameterSet::from/to", "CompressedUsedLeafsIndexes::increment"],
       forall=_shape(L) + ", every 16-byte seed", bounds="exact; n = 16", unwind=34)
@@ -208,10 +216,28 @@ for prop in ("C04", "C11"):
 H("C04", "quick", "c04", "c04_sign_fails_no_callback", config="l1w8h5", timeout=1800, model="HavocSum16", encodes=_sign_fns, unwind=36, replayable=False,
   stubs=DEFAULT_STUBS + ["HssSignature::sign -> contracts::model_hss_sign_fails"], forall="1 level H2/W8, counter 1, every seed, both callback outcomes; signing proper fails",
   bounds="n=16")
+_light_stubs = DEFAULT_STUBS + ["HssPrivateKey::from -> contracts::model_from_light (one LMS private key per level with the level's parameters and current leaf; no LMS layer)",
+                               "HssSignature::sign -> contracts::model_hss_sign_light (consumes one bottom leaf or refuses; leaf index of every level)",
+                               "HssSignature::to_binary_representation -> contracts::model_hss_signature_bytes (fixed 36-byte record of the leaf indices)",
+                               "HashChain::do_actual_hash_chain overridden by HavocSum16"]
+_tail_fns = ["hss::hss_sign / hss_sign_core", "ReferenceImplPrivateKey::from_binary_representation / increment / wipe / to_binary_representation",
+             "CompressedParameterSet::to", "CompressedUsedLeafsIndexes::to / increment", "Signature::from_bytes_verbose", "SigningKey::get_lifetime", "HssPrivateKey::get_lifetime"]
 for prop in ("C03", "C04", "C05"):
-    for name, cfg, tier in (("c03_step_contract_h5_h10_h25", "w8", "quick"), ("c03_step_contract_h25_h5", "w8", "quick"), ("c03_step_contract_h20", "w8", "quick"),
-                            ("c03_step_contract_h15_h15_h15_h15", "w8", "thorough"), ("c03_step_contract_8x_h5", "w8", "thorough")):
-        H(prop, tier, "c04", name, config=cfg, timeout=7200, model="HavocSum16", encodes=_sign_fns + ["SigningKey::get_lifetime", "HssPrivateKey::get_lifetime"],
+    for name, cfg, tier in (("c04_protocol_light_h20", "l1w8", "quick"), ("c04_protocol_light_h25_h5", "l2w8", "thorough"),
+                            ("c04_protocol_light_h5_h10_h25", "l3w8", "thorough"), ("c04_protocol_light_8x_h5", "w8", "thorough")):
+        H(prop, tier, "c04", name, config=cfg, timeout=7200, model="HavocSum16", encodes=_tail_fns, unwind=36, replayable=False, stubs=_light_stubs,
+          forall="concrete shape (type bytes assigned), every counter of the complete lifetime, every seed, both callback outcomes: lifetime query, one signing call, "
+                 "callback count / argument / result, leaf index of every level in the released record",
+          bounds="n=16, W8; both HSS-level operations by contract")
+for prop in ("C03", "C05"):
+    for name, cfg, tier in (("c03_expand_and_sign_h20", "l1w8", "quick"), ("c03_expand_and_sign_h25_h5", "l2w8", "thorough"), ("c03_expand_and_sign_h5_h10_h25", "l3w8", "thorough")):
+        H(prop, tier, "c04", name, config=cfg, timeout=7200, model="HavocSum16", unwind=36, replayable=False, stubs=_contract_stubs,
+          encodes=["ReferenceImplPrivateKey::from_binary_representation", "HssPrivateKey::from / get_lifetime", "HssSignature::sign", "CompressedUsedLeafsIndexes::to"],
+          forall="concrete shape, every counter of the complete lifetime, every seed: expansion + HSS signing; used leaf of every level, signatures over child keys, "
+                 "bottom leaf in the released structure, refusal of a second signature", bounds="n=16, W8; LMS layer by contract")
+    for name, cfg, tier in (("c03_step_contract_h20", "l1w8", "thorough"), ("c03_step_contract_h25_h5", "l2w8", "thorough"),
+                            ("c03_step_contract_h5_h10_h25", "l3w8", "thorough"), ("c03_step_contract_h15_h15_h15_h15", "l4w8", "thorough"), ("c03_step_contract_8x_h5", "w8", "thorough")):
+        H(prop, tier, "c04", name, config=cfg, timeout=14400, model="HavocSum16", encodes=_sign_fns + ["SigningKey::get_lifetime", "HssPrivateKey::get_lifetime"],
           unwind=36, replayable=False, stubs=_contract_stubs,
           forall="concrete shape (type bytes assigned), every counter of the complete lifetime (up to 2^60), every seed, both callback outcomes",
           bounds="n=16, W8; LMS layer by contract (tall trees are not built)")
@@ -356,11 +382,13 @@ for prop in ("C10", "C11"):
     H(prop, "quick", "c10", "c10_expand_arbitrary_small_buffer", timeout=3600, model="Havoc16", unwind=40,
       encodes=["hss::aux::hss_is_aux_data_used", "hss::aux::hss_expand_aux_data"], forall="every buffer of every length 0..40 and content (every level word), with / without seed", bounds="cap 40 bytes")
 for prop in ("C04", "C09", "C05"):
-    H(prop, "quick", "c04", "c04_signing_key_entry_contract_h5", config="w8", timeout=3600, model="HavocSum16", unwind=36, replayable=False, stubs=_contract_stubs,
-      encodes=_sign_fns + ["SigningKey::from_bytes / try_sign / try_sign_with_aux / get_lifetime / as_slice"],
-      forall="1 level H5/W8 (type byte assigned), every counter 0..31, every seed", bounds="n=16; LMS layer by contract")
-    H(prop, "thorough", "c04", "c04_signing_key_entry_contract_h10_h5", config="w8", timeout=7200, model="HavocSum16", unwind=36, replayable=False, stubs=_contract_stubs,
-      encodes=_sign_fns + ["SigningKey::*"], forall="2 levels H10,H5 / W8, every counter 0..2^15-1, every seed", bounds="n=16; LMS layer by contract")
+    H(prop, "quick", "c04", "c04_signing_key_entry_light_h5", config="l1w8h5", timeout=7200, model="HavocSum16", unwind=36, replayable=False, stubs=_light_stubs,
+      encodes=_tail_fns + ["SigningKey::from_bytes / try_sign / try_sign_with_aux / as_slice"],
+      forall="1 level H5/W8 (type byte assigned), every counter 0..31, every seed: in-memory key after try_sign, lifetime, second sign after exhaustion", bounds="n=16")
+    H(prop, "thorough", "c04", "c04_signing_key_entry_light_h10_h5", config="l2w8", timeout=14400, model="HavocSum16", unwind=36, replayable=False, stubs=_light_stubs,
+      encodes=_tail_fns + ["SigningKey::*"], forall="2 levels H10,H5 / W8, every counter 0..2^15-1, every seed", bounds="n=16")
+    H(prop, "thorough", "c04", "c04_signing_key_entry_contract_h5", config="l1w8h5", timeout=14400, model="HavocSum16", unwind=36, replayable=False, stubs=_contract_stubs,
+      encodes=_sign_fns + ["SigningKey::*"], forall="as the light variant, with the real expansion and HSS signing over the LMS contract", bounds="n=16")
 # C14: the same harnesses under reduced / non-uniform build configurations
 for cfg in ("default", "w8", "l1w8h5", "l2w8h5", "l2mixed", "l3mixed", "l3w8h5"):
     H("C14", "quick", "c14", "c14_capacities_cover_the_limits", config=cfg, timeout=600, model="none (constants)", unwind=12,
@@ -381,7 +409,10 @@ H("C09", "quick", "c09", "c09_derivation_units_twice", flagset="eq", timeout=360
            "SeedDerive::seed_derive", "lm_ots::keygen::generate_private_key"],
   forall="every salt, two seeds, every leaf index; each unit run twice with an unrelated derivation in between", bounds="n=16, W8")
 for name, tier in (("c09_sign_twice_contract_h5", "quick"), ("c09_sign_twice_contract_h5_h5", "thorough")):
-    H("C09", tier, "c09", name, config="w8", flagset="eq", timeout=7200, model="ToySum16", unwind=36, replayable=False, stubs=_contract_stubs,
+    H("C09", tier, "c09", name, config="l1w8h5" if name.endswith("_h5") and not name.endswith("h5_h5") else "l2w8h5", flagset="eq", timeout=7200, model="ToySum16", unwind=36, replayable=False, stubs=_contract_stubs,
       encodes=_sign_fns + ["SigningKey::from_bytes / try_sign"],
       forall="every salt, seed, counter of the lifetime, 3-byte message; sign twice through hbs_lms::sign with another key's signing in between, once through SigningKey::try_sign",
       bounds="n=16; LMS layer by contract (deterministic under the toy family)")
+
+H("C16", "quick", "c13", "c05_wipe_l1", timeout=3600, model="Havoc16", unwind=34, encodes=["ReferenceImplPrivateKey::increment / wipe / to_binary_representation"],
+  forall="1 level, all heights, every counter and seed: the blob handed on after the last leaf carries no seed byte", bounds="exact; n = 16")
